@@ -8,7 +8,7 @@ def run(tier, seed):
     rep = Report('C13', tier, seed)
     from ..replay import sim_native
     rep.add(util.native_ob('native:nonMarkov-SIS-reference-semantics', 'EoN/simulation.py:fast_nonMarkov_SIS / _process_trans_SIS_nonMarkov_', sim_native.c13_native,
-                           '150 random graphs with 2..6 nodes, 1-2 seeds, tmin in {0, 1.5}, 3 horizons; duration and delay lists (0-2 delays per neighbour, a third of the trials with '
+                           '400 random graphs with 2..6 nodes (a fifth without a node 0), 1-2 seeds, tmin in {0, 1.5, -3.25}, 4 horizons, random silent and short-lived nodes; duration and delay lists (0-3 delays per neighbour, a third of the trials with '
                            'unsorted lists) are tables indexed by (node, neighbour, how often infected); trials with two events at the same instant are skipped; every node history '
                            'must equal the reference: recover exactly `duration` after each infection, attempt each neighbour at every listed delay, attempts infect iff the '
                            'neighbour is susceptible at that instant'))
